@@ -87,6 +87,7 @@ def oracle(cfg, local, replies, obs):
                                 'C47_compression_both_sides'))
 
     frames_check(obs[0], False)
+    announced = None        # the COMPRESSION option actually sent in STARTUP = what the server agreed to use
     for i, r in enumerate(replies):
         prev, o = obs[i], obs[i + 1]
         k = r[0]
@@ -119,7 +120,19 @@ def oracle(cfg, local, replies, obs):
             out.append(('failure-overwritten.%s' % k, 'last_error changed from %s to %s' % (prev['last_error'], o['last_error']), 'C47_error_kinds'))
         if live and k not in ('supported', 'ready', 'authenticate', 'challenge', 'auth_success') and not o['connected']:
             out.append(('failure-hangs.%s' % k, '%s during the handshake left the connect attempt waiting (no error, not connected)' % k, 'C47_error_kinds'))
+        # the waiter (Connection.factory) reads last_error as soon as connected_event fires: a failure must be recorded BEFORE the wake-up
+        if o['wake_snaps'] and not prev['connected'] and o['last_error'] != 'none' and o['wake_snaps'][0] == 'none':
+            out.append(('error-recorded-after-wakeup.%s' % k, 'connected_event was set while last_error was still None (failure %s recorded afterwards): '
+                        'a waiting Connection.factory returns the failed connection as ready' % o['last_error'], 'C47_ready_only_after'))
         # compression
+        for f in o['sent']:
+            if f['kind'] == 'startup':
+                announced = f['startup_compression']
+        if o['compressor'] is not None and o['compressor'] != announced:
+            out.append(('compressor-not-negotiated.%s' % o['compressor'], 'compressor %r is installed although STARTUP announced COMPRESSION=%r' % (o['compressor'], announced),
+                        'C47_compression_both_sides'))
+        if (o['seg_lz4'] or any(f['compressed'] or f['seg_compressed'] for f in o['sent'])) and announced is None:
+            out.append(('compressed-without-negotiation', 'outgoing frames/segments are compressed although STARTUP announced no COMPRESSION', 'C47_compression_both_sides'))
         frames_check(o, accept_seen)
         for attr in ('compressor', 'decompressor'):
             n = o[attr]
